@@ -61,10 +61,22 @@ CLAIMED = {
   text="Proof of the selection bookkeeping: include = matchesInclude && !matchesExclude (root always), nothing is created for an unselected non-directory, a directory is created eagerly only if selected itself, pending ancestors are created exactly when a selected descendant arrives, each from its own source directory's mode/owner/xattrs, the ancestor stack is restored on every return path. Equality with the reference filter (which depends on the regexp matcher of moby/patternmatcher) is not decidable by contracts here and is left to a bounded stand-in.",
   note="Assumed: matcher results uninterpreted; os effects.",
   design="DESIGN.md section 3 C16"),
+ "C17": dict(
+  text="Proof of the per-entry header construction of the tar export for all stats: member name in slash form with a trailing slash for directories, uid/gid/device numbers/link name taken from the view's stat, link members (symlink and hard link) with size 0 and the right type flag, the payload opened after the header and only for non-empty regular non-link members, the archive closed last after a complete walk; the stat constructor (mkstat/setUnixOpt) contracts are part of the check. Not decided: that archive/tar produces a well-formed archive that extracts to the view (dependency semantics, assumed).",
+  note="Assumed: archive/tar FileInfoHeader/Writer contracts, FS interface, xattr PAX records not tracked (map iteration).",
+  design="DESIGN.md section 3 C17"),
+ "C18": dict(
+  text="Proof: dedupePaths returns a list in which no element lies inside another whenever its input is strictly ascending in path order (loop invariants + proved lemmas inside_less, contiguity, inside_hasprefix over the spec), a root entry collapses the list; the comparator FollowLinks sorts with is the protocol path order (found bytewise, repaired); the resolver's termination measure is a contract: a link path is added to the finite resolved set as a NEW element before any recursive call and an already resolved path returns at once, the set only grows. End-to-end closure/termination over link graphs is a bounded stand-in (not counted as proved) with two known findings (lexical '..' after a link; over-eager cycle guard).",
+  note="Assumed: the call-site precondition of dedupePaths in FollowLinks (distinct map keys sorted by the verified comparator) is not proved; FS.Walk contract (invokes its callback); filepath functions uninterpreted.",
+  design="DESIGN.md section 3 C18"),
  "C19": dict(
   text="Proof: buffer.alloc hands out the next n bytes of the concatenation view (region directly behind the last one or a fresh chunk at the end; earlier chunks keep position, backing array and length; index/slice safety; no overflow); in the receive loop every non-listing-name STAT is framed as LE32(size)+record of exactly that size, the listing's own name is skipped but still counted in the id sequence (found and repaired), ids are registered only for selected files.",
   note="Assumed: record bytes = marshalled stat (trusted generated MarshalToSizedBufferVT/SizeVT); selector callback; ancestor-stack replay order is checked only through the forward-after-validation obligation.",
   design="DESIGN.md section 3 C19"),
+ "C20": dict(
+  text="Proof with exact bit-vector integers and loop invariants re-inferred on every run (Houdini): the hand-optimised decoders (*Packet).UnmarshalVT and (*Stat).UnmarshalVT never index, slice or allocate out of range for any byte string and any prior message (all 40+ loops), assign slice fields only their old or a fresh backing array (never the input buffer), the exported Unmarshal uses the copying decoder; protoStream.SendMsg writes one frame of 4+Size() bytes with a big-endian prefix (the message type must implement the marshaling interface - found missing, repaired), RecvMsg reads exactly one frame into a buffer of exactly the declared length, leaves the message untouched for an empty frame and fails only when reading or decoding fails. Not decided: Unmarshal(Marshal(x)) == x for multi-field messages and equality with the reflection-based protobuf runtime (out of reach, stated).",
+  note="Assumed: protohelpers.Skip results unconstrained (callers re-check), generated SizeVT/MarshalToSizedBufferVT/ResetVT trusted, io.ReadFull/Writer contracts, sync.Pool holds *[]byte.",
+  design="DESIGN.md section 3 C20"),
 }
 
 NOT_APPLICABLE = {
